@@ -54,11 +54,15 @@ class Report:
         return cond
 
     def floor(self, rule, name, count, minimum):
+        """`minimum` is the number of instances confirmed by hand on the pinned tree.  A refactor may legitimately merge a few
+        sites (three write_all calls become one), so the alarm threshold is three quarters of it (never below 1): a rule that
+        lost its anchor matches nothing or almost nothing, which this still catches."""
         self.counts[name] = count
-        if count < minimum:
-            self.finding(rule, "floor|" + name, "instance count for %s fell to %d (< %d confirmed by hand): the rule would pass vacuously" % (name, count, minimum))
+        need = max(1, -(-3 * minimum // 4)) if minimum > 3 else minimum
+        if count < need:
+            self.finding(rule, "floor|" + name, "instance count for %s fell to %d (< %d; %d confirmed by hand): the rule would pass vacuously" % (name, count, need, minimum))
         else:
-            self.ok(rule, "floor %s: %d >= %d" % (name, count, minimum))
+            self.ok(rule, "floor %s: %d >= %d (confirmed %d)" % (name, count, need, minimum))
 
     def count(self, name, n):
         self.counts[name] = self.counts.get(name, 0) + n
